@@ -796,6 +796,13 @@ class Folder:
             else:
                 di = i - (len(params) - len(defaults))
                 scope[p.arg] = self._fold(defaults[di], mod, {}) if di >= 0 else Unknown("missing arg")
+        if fn.node.args.vararg is not None:
+            scope[fn.node.args.vararg.arg] = tuple(args[len(params):])
+        for p, d in zip(fn.node.args.kwonlyargs, fn.node.args.kw_defaults):
+            if p.arg in kwargs:
+                scope[p.arg] = kwargs[p.arg]
+            else:
+                scope[p.arg] = self._fold(d, mod, {}) if d is not None else Unknown("missing arg")
         try:
             self._exec(fn.node.body, mod, scope)
         except _ReturnValue as r:
